@@ -33,7 +33,7 @@ Section ExprInd.
   Hypothesis H_index : forall a i, P a -> P i -> P (EIndex a i).
   Hypothesis H_slice : forall a lo hi st, P a -> optP lo -> optP hi -> optP st -> P (ESlice a lo hi st).
   Hypothesis H_call : forall f args kw st ds, Forall P args -> P (ECall f args kw st ds).
-  Hypothesis H_meth : forall r m args, P (EMeth r m args).
+  Hypothesis H_meth : forall r m args kw, P (EMeth r m args kw).
   Hypothesis H_lambda : forall ps b, P (ELambda ps b).
   Definition clauseP (c : clause) : Prop := match c with CFor _ e => P e | CIf e => P e end.
   Hypothesis H_listcomp : forall e cls, P e -> Forall clauseP cls -> P (EListComp e cls).
@@ -69,7 +69,7 @@ Section ExprInd.
     | ECall f args kw st ds =>
         H_call f args kw st ds ((fix go (l : list expr) : Forall P l :=
                                    match l with [] => Forall_nil _ | x :: r => Forall_cons x (expr_ind' x) (go r) end) args)
-    | EMeth r m args => H_meth r m args
+    | EMeth r m args kw => H_meth r m args kw
     | ELambda ps b => H_lambda ps b
     | EListComp b cls =>
         H_listcomp b cls (expr_ind' b)
